@@ -514,7 +514,7 @@ func genPlan(r *hutil.Rng, stream string, seed uint64, idx int) *Plan {
 	case "c10marker":
 		p.Marker = true
 		p.MarkerN = 1 + r.Intn(3)
-		p.ReportFails = r.Chance(1, 3)
+		p.ReportFails = r.Chance(1, 6)
 		p.Deliver = []Delivery{{Branch: 0, Fault: -1}}
 	case "corrupt":
 		p.Corrupt = 0
